@@ -3,7 +3,8 @@
 p="$1"; shift
 cd /repo || exit 3
 git diff --quiet || { echo "repo dirty"; exit 3; }
-git apply "$p" 2>/dev/null || git apply -3 "$p" 2>/dev/null || patch -p1 -s --fuzz=3 < "$p" || { echo "PATCH FAILED $p"; git checkout -- .; exit 3; }
+git apply "$p" 2>/dev/null || patch -p1 -s --fuzz=3 --no-backup-if-mismatch < "$p" >/dev/null 2>&1 || { echo "PATCH FAILED $p"; git reset -q; git checkout -- .; find /repo -name '*.rej' -delete -o -name '*.orig' -delete; exit 3; }
+go build ./... 2>/dev/null || { echo "PATCH FAILED (does not build) $p"; git checkout -- .; exit 3; }
 (cd /verif && "$@"); rc=$?
 cd /repo && git checkout -- . && git status --short | grep -v '^??' ; find /repo -name '*.orig' -delete -o -name '*.rej' -delete
 exit $rc
